@@ -6,6 +6,7 @@ from . import rules_unsafe as RU
 from . import rules_effect as RE
 from . import rules_extrema as RX
 from . import rules_skipnan as RK
+from . import rules_result as RR30
 from . import rules_hist as RH
 from . import rules_terms as RT
 from . import rules_zones as RZ
@@ -34,6 +35,7 @@ def all_roots(prog):
 
 def c20(ctx):
     prog = ctx.prog("dev")
+    RR30.rule_r30_delegating(ctx, prog, only={("MaybeNanExt", "fold_axis_skipnan"), ("MaybeNanExt", "map_axis_skipnan_mut"), ("QuantileExt", "quantile_axis_skipnan_mut")})
     scanned, sites = RL.rule_r1(ctx, prog)
     ctx.floor("R1", scanned, 380, "bodies scanned")
     ctx.floor("R1", sites, 1000, "call sites scanned")
@@ -210,6 +212,8 @@ def c14(ctx):
     ctx.floor("R15", n, 4, "skip-NaN traversals")
     RK.rule_lane_forms(ctx, prog)
     RK.rule_r23(ctx, prog, [b for b in all_roots(prog) if "maybe_nan::MaybeNanExt" in b.key])
+    RR30.rule_r30_delegating(ctx, prog, only={("MaybeNanExt", m) for m in ("fold_skipnan", "indexed_fold_skipnan", "fold_axis_skipnan", "map_axis_skipnan_mut")})
+    RR30.rule_r30_captured_index(ctx, prog)
     nd = RX.rule_r7_direction(ctx, prog, RX.SKIPNAN)
     ctx.floor("R7", nd, 4, "direction table rows (skip-NaN extrema)")
     for nme in ("argmin_skipnan", "argmax_skipnan"):
@@ -385,6 +389,7 @@ def c07(ctx):
     ctx.floor("R6", n, 8, "variance/moment routines in the decision table")
     RT.rule_c07(ctx, prog)
     RT.rule_moment_shift(ctx, prog)
+    RT.rule_moment_results(ctx, prog)
     return dict(
         level="other",
         explanation="(R19) the loop of inner_weighted_var is extracted from MIR as the recurrence W'=W+w, m'=m+(w/W')(x−m), "
@@ -533,6 +538,7 @@ def c02(ctx):
     RSG.rule_r24_selection(ctx, prog)
     RSG.rule_r25_bulk_selection(ctx, prog)
     RSG.rule_r22_partition(ctx, prog)
+    RR30.rule_r30_delegating(ctx, prog, only={("Sort1dExt", "get_many_from_sorted_mut")})
     RZ.rule_r18_partition(ctx, prog)
     # permutation: only swaps move data in the selection family
     eff = RE.Effect(ctx, prog, "R4")
